@@ -31,7 +31,7 @@ pub struct Ledger;
 /// is what a conforming allocator may do and glibc's malloc (always 16) never does.
 /// Code that relies on an alignment it did not request shows up natively, not only
 /// under Miri. The block ends flush with the underlying allocation, so ASan's red
-/// zone still starts right behind it.
+/// zone still starts right behind it. New blocks are filled with 0xA5.
 #[inline]
 fn outer(l: Layout) -> Option<Layout> {
     Layout::from_size_align(l.size().checked_add(l.align())?, l.align().checked_mul(2)?).ok()
@@ -45,6 +45,9 @@ unsafe impl GlobalAlloc for Ledger {
                 if b.is_null() {
                     b
                 } else {
+                    // fresh memory is never zero by luck: bytes a constructor forgets to
+                    // write (padding excepted) read back as 0xA5
+                    core::ptr::write_bytes(b, 0xA5, o.size());
                     b.add(l.align())
                 }
             }
